@@ -11,7 +11,7 @@ PA, PC = PG.PA, PG.PC
 
 
 def universe(rng, tier):
-    vals = [1, 2, 'x', 1.5, 9007199254740993, 9007199254740992]
+    vals = [0, 1, 2, 'x', 1.5, 9007199254740993, 9007199254740992]
     obs_universe = [{PA: v1, PC: v2} for v1 in vals for v2 in (1, 'x')] + [{PA: 1}, {PA: 2}, {PC: 1}, {}]
     seqs = []
     for n in (1, 2, 3):
@@ -20,6 +20,12 @@ def universe(rng, tier):
         for combo in combos:
             for times in ((0, 1, 5)[:n], (0, 0, 10)[:n], (5, 1, 0)[:n]):
                 seqs.append([(times[i], obs_universe[c]) for i, c in enumerate(combo)])
+    # always present (not sampled): every sequence of three single-property observations over the values the order comparisons distinguish, in three time layouts --
+    # what separates FOLLOWEDBY from AND, and an alternative over two operands from one over three
+    small = [{PA: 0}, {PA: 1}, {PA: 2}]
+    for combo in itertools.product(range(3), repeat=3):
+        for times in ((0, 1, 5), (5, 1, 0), (1, 0, 5)):
+            seqs.append([(times[i], small[c]) for i, c in enumerate(combo)])
     return seqs
 
 
